@@ -489,7 +489,15 @@ func c09r6(w *World, rr *RuleRun) {
 	nT := 0
 	for _, ex := range ffW.exits {
 		for _, alt := range ex.st {
-			if !w.FE.Resolve(alt, ex.ret.Results[0]).IsConst("true") {
+			res := w.FE.Resolve(alt, ex.ret.Results[0])
+			if res.Op == OpCall && strings.HasPrefix(res.Name, "slices.Contains") && len(res.Args) == 2 {
+				// the helper forwards to the library's membership test on its own two parameters (DD-r2)
+				nT++
+				ok := termEq(res.Args[0], w.ParamTerm(wc, "ws")) && termEq(res.Args[1], wP)
+				rr.At(w, ex.ret, "wantsContain is true only when an element equals the wanted family", ok, "returns "+res.String())
+				continue
+			}
+			if !res.IsConst("true") {
 				continue
 			}
 			nT++
